@@ -26,7 +26,8 @@ Proof. exact oinv_one_per_slot. Qed.
 Print Assumptions C13_one_upvalue_per_slot.
 
 (* BOUNDED refinement (finite statement, bound stated): for every trace of at most BOUND = 6
-   operations over the 19-operation alphabet that satisfies the discipline D and fits the
+   operations over the 23-operation alphabet (incl. new variable instance in an existing slot
+   and the fixed tail call) that satisfies the discipline D and fits the
    capacity, the reads of the implementation machine (addresses, open list, closing, growth)
    equal the reads of the store-semantics spec where every variable instance is a cell.
    Proved by exhaustive evaluation inside Coq (vm_compute) + a soundness lemma.  The
@@ -37,6 +38,41 @@ Theorem C13_refines_bounded : forall l,
   out (run (init_st 1000 4) l) = sout (srun init_sst l).
 Proof. exact (sim_check_sound alphabet BOUND _ _ sim_check_bound_a). Qed.
 Print Assumptions C13_refines_bounded.
+
+(* The discipline D is NECESSARY (1): a slot that still has an open upvalue is given to a new
+   variable instance (the next loop iteration; `ONewVar`) without CLOSE_UPVALUES_TO - as the
+   unfixed compiler does at the back edge of `for .. in` and on `continue` - and the machine's
+   reads differ from the spec's: both closures share one upvalue.  The same trace with the
+   close satisfies D and agrees. *)
+Theorem C13_reuse_without_close_refuted :
+  exists l, D init_sst l = false /\ out (run (init_st 1000 8) l) <> sout (srun init_sst l).
+Proof.
+  exists (reuse_witness false). destruct reuse_without_close as [H1 [H2 [H3 _]]].
+  split; [exact H1|]. rewrite H2, H3. discriminate.
+Qed.
+Print Assumptions C13_reuse_without_close_refuted.
+
+Theorem C13_reuse_with_close :
+  D init_sst (reuse_witness true) = true /\
+  out (run (init_st 1000 8) (reuse_witness true)) = sout (srun init_sst (reuse_witness true)).
+Proof.
+  destruct reuse_without_close as [_ [_ [_ [H4 [H5 H6]]]]]. split; [exact H4|]. rewrite H5, H6. reflexivity.
+Qed.
+Print Assumptions C13_reuse_with_close.
+
+(* The discipline is necessary (2): callBytecodeFunctionTCO AS FOUND (no opCloseUpvalues(fp)
+   before the frame is reused; `as_found` replaces every tail call by that variant) violates
+   the spec on a trace that satisfies D and on which the fixed machine agrees with the spec. *)
+Theorem C13_tailcall_without_close_refuted :
+  exists l, D init_sst l = true /\ fits_run (init_st 1000 8) l = true /\
+            out (run (init_st 1000 8) l) = sout (srun init_sst l) /\
+            out (run (init_st 1000 8) (map as_found l)) <> sout (srun init_sst l).
+Proof.
+  exists tailcall_witness. destruct tailcall_without_close as [H1 [H2 [H3 [H4 H5]]]].
+  split; [exact H1|]. split; [exact H2|]. split; [rewrite H3, H4; reflexivity|].
+  rewrite H5, H4. discriminate.
+Qed.
+Print Assumptions C13_tailcall_without_close_refuted.
 
 (* after the defining frame returned, reads and writes through the closures act on the
    variable's own cell (concrete instance, both machines agree with the expected values) *)
